@@ -136,6 +136,9 @@ func buildCatalogue() (grammar *catalogue, extra *catalogue, ar *arities) {
 	expand1(grammar, bInt, true)
 	expand1(grammar, bStr, true)
 	expand1(grammar, bTime, true)
+	// every combinator over component Ords that deliberately differ from the default order of
+	// their type, at element types a library could special-case (custom.go)
+	registerCustom(grammar, maxDecide == 21) // maxDecide is 21 exactly in the thorough tier
 
 	add := func(n *node) { extra.add(n) }
 	add(hn.n)
